@@ -223,7 +223,9 @@ class Conv:
                 return ('global', rd['name'])
             return ('ref', rk, rd.get('name'))
         if k == 'MemberExpr':
-            return ('arrow' if n.get('isArrow') else 'dot', self.expr(inner[0]), n.get('name'))
+            ft = n.get('type', {})
+            return ('arrow' if n.get('isArrow') else 'dot', self.expr(inner[0]), n.get('name'),
+                    ft.get('desugaredQualType', ft.get('qualType')))
         if k == 'CallExpr':
             return ('call', self.expr(inner[0]), tuple(self.expr(a) for a in inner[1:]))
         if k == 'BinaryOperator':
